@@ -96,21 +96,29 @@ pub fn render(d: &Value) -> String {
     for i in 1..=funcs {
         if i == at {
             w.push_str("  (func $carrier");
-            let params = n(d, "params");
-            if params > 0 {
+            // parameters: `params` x i32 then `params64` x i64
+            let (params, params64) = (n(d, "params"), n(d, "params64"));
+            if params + params64 > 0 {
                 w.push_str(" (param");
                 for _ in 0..params {
                     w.push_str(" i32");
                 }
-                w.push(')');
-            }
-            let locals = n(d, "locals");
-            if locals > 0 {
-                w.push_str(" (local");
-                for _ in 0..locals {
-                    w.push_str(" i32");
+                for _ in 0..params64 {
+                    w.push_str(" i64");
                 }
                 w.push(')');
+            }
+            // locals in up to three groups of alternating value types: i32 x locals, i64 x locals64, i32 x locals3
+            for (key, ty) in [("locals", "i32"), ("locals64", "i64"), ("locals3", "i32")] {
+                let cnt = n(d, key);
+                if cnt > 0 {
+                    w.push_str(" (local");
+                    for _ in 0..cnt {
+                        w.push(' ');
+                        w.push_str(ty);
+                    }
+                    w.push(')');
+                }
             }
             w.push('\n');
             let brt = n(d, "brt");
@@ -118,6 +126,14 @@ pub fn render(d: &Value) -> String {
                 w.push_str("    (block $b (br_table");
                 for _ in 0..=brt {
                     w.push_str(" $b"); // brt targets + the default
+                }
+                w.push_str(" (i32.const 0)))\n");
+            }
+            let brt2 = n(d, "brt2");
+            if brt2 >= 0 {
+                w.push_str("    (block $c (br_table");
+                for _ in 0..=brt2 {
+                    w.push_str(" $c");
                 }
                 w.push_str(" (i32.const 0)))\n");
             }
